@@ -61,7 +61,8 @@ def strategy():
                       st.lists(st.integers(1, 12), min_size=1, max_size=3), st.sampled_from([[2 ** 15 + 1], [181, 181], [2 ** 16]]))
     arr = st.fixed_dictionaries({
         "dtype": dtype, "shape": shape, "seed": st.integers(0, 10 ** 6),
-        "layout": st.sampled_from(["C", "F", "slice", "neg", "T", "broadcast", "memmap", "memmap_off", "memmap_slice", "memmap_T", "memmap_neg"]),
+        "layout": st.sampled_from(["C", "F", "slice", "neg", "T", "broadcast", "memmap", "memmap_off", "memmap_slice", "memmap_T", "memmap_neg",
+                                    "memmap_view", "memmap_bytes", "memmap_field"]),
         "sub": st.sampled_from([None, None, None, "matrix", "custom"]),
         "nest": st.sampled_from([None, None, "list2", "dict", "tuple"]),
     })
@@ -175,6 +176,13 @@ def build_array(np, a, scratch):
         arr = np.broadcast_to(base, shape)
     elif layout == "memmap_off":
         arr = base[2:]
+    elif layout == "memmap_view" and isinstance(base, np.memmap) and base.ndim >= 1 and not dt.names and dt.itemsize in (1, 2, 4, 8):
+        # the same bytes seen through another dtype of the same item size: the view's dtype differs from its backing memmap's
+        arr = base.view({1: "i1", 2: "<u2", 4: "<u4", 8: "<i8"}[dt.itemsize] if dt.kind != "i" else {1: "u1", 2: "<f2", 4: "<f4", 8: "<f8"}[dt.itemsize])
+    elif layout == "memmap_bytes" and isinstance(base, np.memmap) and base.ndim == 1 and base.size >= 2 and not dt.names:
+        arr = base.view(np.uint8)[dt.itemsize:]
+    elif layout == "memmap_field" and isinstance(base, np.memmap) and dt.names:
+        arr = base[dt.names[0]]
     else:
         arr = base
     if a["sub"] == "matrix" and arr.ndim == 2 and not layout.startswith("memmap"):
